@@ -29,6 +29,8 @@ pub struct PeerMon {
     pub spoke: bool,
     pub bitfields: usize,
     pub outstanding: Vec<(u32, u32, u32)>,
+    /// Requests the client cancelled (their answers may already be on the wire).
+    pub cancelled: Vec<(u32, u32, u32)>,
     pub scanned: usize,
     pub closed: bool,
 }
@@ -87,6 +89,10 @@ impl Scenario for Resv {
             if !pm.outstanding.is_empty() {
                 out.push(format!("P{}", k));
             }
+            // the answer to a request that crossed our Cancel on the wire
+            if self.gated && !pm.cancelled.is_empty() {
+                out.push(format!("Q{}", k));
+            }
             if self.with_close {
                 out.push(format!("X{}", k));
             }
@@ -115,6 +121,10 @@ impl Scenario for Resv {
             "N" => Msg::NotInterested,
             "P" => {
                 let r = mon.p[k].outstanding[0];
+                Msg::Piece(r.0, r.1, w.t.pieces[r.0 as usize][r.1 as usize..(r.1 + r.2) as usize].to_vec())
+            }
+            "Q" => {
+                let r = mon.p[k].cancelled[0];
                 Msg::Piece(r.0, r.1, w.t.pieces[r.0 as usize][r.1 as usize..(r.1 + r.2) as usize].to_vec())
             }
             "X" => return vec![Ev::Close(k)],
@@ -153,6 +163,9 @@ impl Scenario for Resv {
                 "P" => {
                     mon.p[k].outstanding.remove(0);
                 }
+                "Q" => {
+                    mon.p[k].cancelled.remove(0);
+                }
                 "X" => mon.p[k].closed = true,
                 "C" | "U" | "I" | "N" => mon.p[k].spoke = true,
                 _ => {}
@@ -174,7 +187,12 @@ impl Scenario for Resv {
                         }
                         mon.p[k].outstanding.push((*i, *b, *l));
                     }
-                    Msg::Cancel(i, b, l) => mon.p[k].outstanding.retain(|r| r != &(*i, *b, *l)),
+                    Msg::Cancel(i, b, l) => {
+                        if mon.p[k].outstanding.contains(&(*i, *b, *l)) {
+                            mon.p[k].cancelled.push((*i, *b, *l));
+                        }
+                        mon.p[k].outstanding.retain(|r| r != &(*i, *b, *l))
+                    }
                     _ => {}
                 }
             }
@@ -195,7 +213,7 @@ impl Scenario for Resv {
         None
     }
     fn key(&self, w: &World, mon: &Mon) -> String {
-        let pm: Vec<String> = mon.p.iter().map(|p| format!("{:?}/{}/{}/{:?}/{}", p.advertised.iter().map(|b| *b as u8).collect::<Vec<_>>(), p.spoke, p.bitfields.min(2), p.outstanding, p.closed)).collect();
+        let pm: Vec<String> = mon.p.iter().map(|p| format!("{:?}/{}/{}/{:?}/{:?}/{}", p.advertised.iter().map(|b| *b as u8).collect::<Vec<_>>(), p.spoke, p.bitfields.min(2), p.outstanding, p.cancelled, p.closed)).collect();
         // byte counters do not influence anything without timer events
         let k = w.default_key();
         let k = strip_counters(&k);
@@ -265,6 +283,7 @@ pub fn scenarios(thorough: bool) -> Vec<(Resv, usize)> {
             (Resv { peers: 2, pieces: 3, gated: true, masks: vec![7, 3], with_close: false, with_interest: false, repeat_bitfield: false }, 9),
             (Resv { peers: 2, pieces: 13, gated: false, masks: vec![1, 3, 6], with_close: false, with_interest: false, repeat_bitfield: true }, 7),
             (Resv { peers: 2, pieces: 3, gated: false, masks: vec![1, 6], with_close: false, with_interest: true, repeat_bitfield: true }, 8),
+            (Resv { peers: 2, pieces: 1, gated: true, masks: vec![1], with_close: false, with_interest: true, repeat_bitfield: false }, 11),
         ]
     } else {
         vec![
@@ -274,6 +293,9 @@ pub fn scenarios(thorough: bool) -> Vec<(Resv, usize)> {
             (Resv { peers: 1, pieces: 3, gated: false, masks: vec![1, 6], with_close: false, with_interest: true, repeat_bitfield: true }, 7),
             // held-back broadcasts: a peer can leave, choke or finish before its task saw SendHave
             (Resv { peers: 2, pieces: 3, gated: true, masks: vec![7], with_close: true, with_interest: false, repeat_bitfield: false }, 6),
+            // both peers offer the same single piece (end game: both are asked for it), interest of the
+            // peers keeps them connected after the client lost interest; answers to cancelled requests
+            (Resv { peers: 2, pieces: 1, gated: true, masks: vec![1], with_close: false, with_interest: true, repeat_bitfield: false }, 8),
         ]
     }
 }
@@ -297,7 +319,7 @@ pub fn run(ctx: &Ctx) -> Outcome {
     let mut o = Outcome::new("model_checking");
     explore::stats_outcome(&total, &mut o);
     o.set("scenarios", Value::Array(per));
-    o.set("rule", json!("events per peer k: B<k>:<mask> bitfield over the first three pieces (first message; in the -rebf scenarios also repeated/late, at most twice), H<k>:<i> have, C<k> choke, U<k> unchoke (repeatable), I<k>/N<k> interest, P<k> correct answer to the oldest outstanding request (also while choking), X<k> disconnect, L<k> release of a held-back broadcast (gated scenarios); single-block pieces; torrents of 3 pieces (end game) and 13 pieces of which only 3 are ever advertised (no end game); every Fisher-Yates tie-break of the chooser is a choice point; states = canonical snapshots of manager + all connection tasks + piece files + monitor (rate counters dropped: no timer event). Plus three full-session scenarios borrowed from C02 (reservation-*): a 12-entry tracker reply naming one address twice, a host re-listed under a new peer id, a seeder plus a peer that leaves and is offered again; there only the manager's reservation records are judged (a Reserved piece has a connected, unchoking holder; no task panics)."));
+    o.set("rule", json!("events per peer k: B<k>:<mask> bitfield over the first three pieces (first message; in the -rebf scenarios also repeated/late, at most twice), H<k>:<i> have, C<k> choke, U<k> unchoke (repeatable), I<k>/N<k> interest, P<k> correct answer to the oldest outstanding request (also while choking), Q<k> answer to a request the client has cancelled (it crossed the Cancel on the wire; gated scenarios), X<k> disconnect, L<k> release of a held-back broadcast (gated scenarios); single-block pieces; torrents of 3 pieces (end game) and 13 pieces of which only 3 are ever advertised (no end game); every Fisher-Yates tie-break of the chooser is a choice point; states = canonical snapshots of manager + all connection tasks + piece files + monitor (rate counters dropped: no timer event). Plus three full-session scenarios borrowed from C02 (reservation-*): a 12-entry tracker reply naming one address twice, a host re-listed under a new peer id, a seeder plus a peer that leaves and is offered again; there only the manager's reservation records are judged (a Reserved piece has a connected, unchoking holder; no task panics)."));
     o.assume("invariants are evaluated in quiescent states (every queued command handled); reduction argument in DESIGN.md 0.2");
     o
 }
